@@ -45,7 +45,10 @@ class Closure:
 
 
 PURE_METHODS = {list: {'index', 'count', 'copy'}, tuple: {'index', 'count'}, dict: {'get', 'keys', 'values', 'items', 'copy'},
-                str: {'startswith', 'endswith', 'strip', 'lower', 'upper', 'split', 'format', 'join', 'replace'}}
+                str: {'startswith', 'endswith', 'strip', 'lower', 'upper', 'split', 'format', 'join', 'replace', 'splitlines', 'lstrip', 'rstrip', 'isdigit', 'isspace', 'find', 'rfind',
+                      'partition', 'rpartition', 'index', 'count', 'rsplit', 'title', 'zfill', 'isalpha', 'isalnum', 'expandtabs'},
+                __import__('re').Match: {'group', 'groups', 'start', 'end', 'span', 'groupdict'},
+                __import__('re').Pattern: {'match', 'search', 'fullmatch', 'sub', 'findall', 'split'}}
 BUILTINS = {'str': str, 'int': int, 'float': float, 'bool': bool, 'list': list, 'tuple': tuple, 'dict': dict, 'len': len, 'isinstance': isinstance, 'sorted': sorted,
             'reversed': lambda x: list(reversed(x)), 'range': lambda *a: list(range(*a)), 'enumerate': lambda x, start=0: list(enumerate(x, start)), 'min': min, 'max': max, 'any': any, 'all': all,
             'zip': lambda *a: list(zip(*a)), 'set': set, 'frozenset': frozenset, 'sum': sum, 'abs': abs}
@@ -180,6 +183,28 @@ def ev(e, env):
                 return o_.__dict__[e.func.attr](*[ev(a, env) for a in e.args], **{k.arg: ev(k.value, env) for k in e.keywords})
             except (KeyError, IndexError, ValueError, TypeError) as ex:
                 raise Raised('%s' % type(ex).__name__)
+    if isinstance(e, ast.Call) and isinstance(e.func, ast.Attribute) and (e.keywords or any(isinstance(a, ast.Starred) for a in e.args)):
+        # f(*args, **kwargs) / keyword arguments on a plain value's pure method (str.format(*a, **k), dict.get(k, default=...))
+        o_ = ev(e.func.value, env)
+        for ty_, meths_ in PURE_METHODS.items():
+            if isinstance(o_, ty_) and not isinstance(o_, Obj) and e.func.attr in meths_:
+                argv_, kw_ = [], {}
+                for a in e.args:
+                    if isinstance(a, ast.Starred):
+                        argv_.extend(list(ev(a.value, env)))
+                    else:
+                        argv_.append(ev(a, env))
+                for k in e.keywords:
+                    if k.arg is None:
+                        kw_.update(dict(ev(k.value, env)))
+                    else:
+                        kw_[k.arg] = ev(k.value, env)
+                try:
+                    r_ = getattr(o_, e.func.attr)(*argv_, **kw_)
+                except (KeyError, IndexError, ValueError, TypeError) as ex:
+                    raise Raised('%s' % type(ex).__name__)
+                return list(r_) if e.func.attr in ('keys', 'values', 'items') else r_
+        raise AnalysisError('pure evaluator: call %s not modelled' % norm(e))
     if isinstance(e, ast.Call) and isinstance(e.func, ast.Attribute) and not e.keywords:
         o_ = ev(e.func.value, env)
         mt_ = env.get('__methods__')
@@ -315,7 +340,7 @@ def run_body(stmts, env):
                     break
                 except _Continue:
                     continue
-        elif isinstance(s, ast.With) and env.get('__mutable__'):
+        elif isinstance(s, ast.With):
             # context managers handed in by the checker are objects with __enter__ (and optionally __exit__) callables; anything else (a lock) is entered silently
             exits = []
             for it in s.items:
@@ -363,6 +388,9 @@ def run_body(stmts, env):
                 bind(t, v)
         elif isinstance(s, ast.Expr) and isinstance(s.value, ast.Call) and env.get('__mutable__'):
             ev(s.value, env)
+        elif isinstance(s, ast.Expr) and isinstance(s.value, ast.Yield) and env.get('__yield_returns__'):
+            # a generator used as a context manager (contextlib.contextmanager): what it yields first is what `with ... as x` binds
+            raise _Return(ev(s.value.value, env) if s.value.value is not None else None)
         elif isinstance(s, ast.Break):
             raise _Break()
         elif isinstance(s, ast.Continue):
@@ -408,6 +436,10 @@ def call(fnode, args, globals_=None, strict_locals=False, mutable=False, methods
         if isinstance(d_, ast.Constant):
             env[a_.arg] = d_.value
     env.update(zip(params, args))
+    if fnode.args.vararg is not None:
+        env[fnode.args.vararg.arg] = tuple(args[len(params):])
+    if fnode.args.kwarg is not None:
+        env[fnode.args.kwarg.arg] = {}
     if strict_locals:
         # names the function (or a function nested in it) binds: reading one of them before any binding is python's UnboundLocalError / NameError;
         # any other unknown name is a global the caller of the evaluator did not model (refusal, not a verdict)
